@@ -12,9 +12,9 @@ BUDGET = {'quick': (8000, 80.0), 'thorough': (100000, 1500.0)}
 CHUNK = 10
 RULE = ('one real stack (1-2 CAs) and 2-3 reference peers; a generated history of 1..40 transfers mixing directions, peers, sizes and outcomes '
         '(clean, j-th frame lost, peer aborts at its j-th received frame, peer falls silent, no acknowledgement, second call on a busy pair, '
-        'inbound sessions overlapping outbound ones); after the history the full advertised concurrency is started at once (J1939-21: one transfer '
+        'inbound sessions overlapping outbound ones, two submissions the moment the stack has processed a peer\'s abort); after the history the full advertised concurrency is started at once (J1939-21: one transfer '
         'per (SA,DA) pair; J1939-22: 8 RTS/CTS + 4 BAM plus one call beyond each) while the peers open inbound sessions with colliding session '
-        'numbers. non-trivial = at least one history step ended in a failure outcome that actually fired; distinct = distinct scenario JSON')
+        'numbers (in some J1939-22 runs the receivers hold the final batch open while inbound sessions with the same numbers time out). non-trivial = at least one history step ended in a failure outcome that actually fired; distinct = distinct scenario JSON')
 FAULT_COUNTERS = {'drop (frame lost)': 'fault_drop', 'peer aborts': 'peer_aborts', 'failed outcomes fired (lost frame / abort / silent peer / no acknowledge)': 'failed_outcomes_fired', 'second call on a busy pair': 'refused_busy_pair', 'inbound sessions overlapping outbound ones': 'inbound_overlaps'}
 REQUIRED_PROBES = ['steps', 'failed_outcomes_fired', 'peer_aborts', 'refused_busy_pair', 'final_batches_ok', 'inbound_overlaps', 'stalled_inbound', 'bursts_after_abort']
 PEERS = {'P1': 0x41, 'P2': 0x42, 'P3': 0x43}
